@@ -8,8 +8,8 @@ from fractions import Fraction
 THEOREMS = [
     "Pq.C03.shots_invariant", "Pq.C03.int_frequency_times_shots_exact", "Pq.C03.samples_length",
     "Pq.C03.frequencies_sum_to_one", "Pq.C03.counts_sum",
-]
-FILES = ["PqVerif/Model/Engine.lean", "PqVerif/Lemmas/EngineInv.lean", "PqVerif/Props/C03.lean"]
+    "Pq.C03Chain.weights_sum", "Pq.C03Chain.post_normalised", "Pq.C03Chain.sequential_eq_joint", "Pq.C03Chain.joint_zero_of_first_zero", "Pq.C03Chain.final_branch_state"]
+FILES = ["PqVerif/Model/Engine.lean", "PqVerif/Lemmas/EngineInv.lean", "PqVerif/Lemmas/MeasureChain.lean", "PqVerif/Props/C03Chain.lean", "PqVerif/Props/C03.lean"]
 
 
 def check_result_invariants(result, shots):
